@@ -36,7 +36,7 @@ pub fn decode(tape: &[u32]) -> (SimFlags, Vec<H>, Vec<u16>) {
     let n = 1 + t.pick(10);
     let mut h = vec![];
     for _ in 0..n {
-        h.push(match t.pick(13) {
+        h.push(match t.pick(15) {
             0 | 1 => H::LoadAndRun(1 + t.pick(300) as u64),
             2 => H::Step(1 + t.pick(20) as u32),
             3 => H::SetReg(t.pick(8), t.u16()),
@@ -46,7 +46,8 @@ pub fn decode(tape: &[u32]) -> (SimFlags, Vec<H>, Vec<u16>) {
             7 => H::RemoveBreakpoint(0x3000 + t.pick(32) as u16),
             8 => H::AddDevice(0xFE20 + t.pick(4) as u16),
             9 => H::RemoveDevice(3 + t.pick(3) as u16),
-            10 => H::Mmap(0xFE30 + t.pick(3) as u16, t.pick(4) as u8),
+            10 => H::Mmap(*t.choose(&[0xFE30u16, 0xFE31, 0xFE32, 0xFE30, 0xFFFC, 0xFFFE]), t.pick(4) as u8),
+            13 | 14 => H::Munmap(*t.choose(&[0xFE30u16, 0xFE31, 0xFE32, 0xFFFC, 0xFFFE, 0xFFFC, 0xFFFE])),
             11 => H::WritePsr(t.u16()),
             _ => H::AttachIo,
         });
@@ -71,7 +72,9 @@ pub fn check(tape: &[u32], st: &mut Stats) -> Result<(), String> {
     let om = MemAccessCtx::omnipotent();
     // model of the configuration that must survive
     let mut bps: Vec<u16> = vec![];
-    let mut iregs: Vec<(u16, u8)> = vec![];
+    // a new simulator maps the PSR at xFFFC and the MCR at xFFFE
+    let mut iregs: Vec<(u16, u8)> = vec![(0xFFFC, 1), (0xFFFE, 2)];
+    let mut unmapped_default = false;
     let mut devices: Vec<(u16, u16, u16)> = vec![]; // (id, port, tag)
     let mut executed = false;
     let mut config_changed = false;
@@ -136,8 +139,14 @@ pub fn check(tape: &[u32], st: &mut Stats) -> Result<(), String> {
                 }
             }
             H::Munmap(port) => {
-                if sim.munmap_internal(*port) {
-                    iregs.retain(|i| i.0 != *port);
+                let was = iregs.iter().any(|i| i.0 == *port);
+                if sim.munmap_internal(*port) != was {
+                    return Err(format!("munmap_internal(x{port:04X}) returned {} although the port was {}mapped", !was, if was { "" } else { "not " }));
+                }
+                iregs.retain(|i| i.0 != *port);
+                if *port >= 0xFFFC {
+                    unmapped_default = true;
+                    config_changed = true;
                 }
             }
             H::WritePsr(v) => {
@@ -208,11 +217,23 @@ pub fn check(tape: &[u32], st: &mut Stats) -> Result<(), String> {
         if sim.mmap_internal(*port, ireg(*k)).is_ok() {
             return Err(format!("reset dropped the internal-register mapping at x{port:04X}"));
         }
-        if *k == 0 {
-            let v = sim.read_mem(*port, om).map(|w| w.get()).ok();
-            if v != Some(sim.pc) {
-                return Err(format!("after reset reading the PC mapping at x{port:04X} gives {v:04X?}"));
-            }
+        let v = sim.read_mem(*port, om).map(|w| w.get()).ok();
+        let want = match k {
+            0 => Some(sim.pc),
+            1 => Some(sim.psr().get()),
+            2 => Some(if sim.mcr().load(std::sync::atomic::Ordering::Relaxed) { 0x8000 } else { 0 }),
+            _ => None,
+        };
+        if want.is_some() && v != want {
+            return Err(format!("after reset reading the {:?} mapping at x{port:04X} gives {v:04X?}, expected {want:04X?}", ireg(*k)));
+        }
+    }
+    // ... and nothing else is mapped: ports the history left unmapped (including a default mapping it removed) stay unmapped
+    for port in [0xFE30u16, 0xFE31, 0xFE32, 0xFFFC, 0xFFFE] {
+        let want = iregs.iter().any(|i| i.0 == port);
+        let got = sim.munmap_internal(port);
+        if got != want {
+            return Err(format!("after reset x{port:04X} is {}mapped to an internal register, before reset it was {}mapped", if got { "" } else { "not " }, if want { "" } else { "not " }));
         }
     }
     log.lock().unwrap().clear();
@@ -231,8 +252,11 @@ pub fn check(tape: &[u32], st: &mut Stats) -> Result<(), String> {
     if !devices.is_empty() {
         st.class("device-attached");
     }
-    if !iregs.is_empty() {
+    if iregs.iter().any(|i| i.0 < 0xFFFC) {
         st.class("ireg-mapped");
+    }
+    if unmapped_default && iregs.iter().filter(|i| i.0 >= 0xFFFC).count() < 2 {
+        st.class("default-ireg-mapping-removed");
     }
     if executed && config_changed {
         st.nontrivial(tape);
@@ -250,14 +274,14 @@ pub fn describe(tape: &[u32]) -> Value {
 
 pub fn run(ctx: &Ctx) -> Outcome {
     let mut out = Outcome::new(
-        "histories of loading and running generated programs, single steps, register/memory/PSR writes, flag flips (strict, real traps, debug frames, privilege), breakpoint edits, recording-device attach/remove, keyboard/display attachment and internal-register mappings, followed by reset; \
+        "histories of loading and running generated programs, single steps, register/memory/PSR writes, flag flips (strict, real traps, debug frames, privilege), breakpoint edits, recording-device attach/remove, keyboard/display attachment and internal-register mappings and unmappings (including the default PSR/MCR ports), followed by reset; \
          afterwards registers, all 65536 words (value and init mask, through the hook), PC, PSR, saved SP, frame depth/list presence, instruction count and halt/breakpoint status equal those of Simulator::new with the same flags (Known and Seeded strategies), \
-         and the flags, breakpoints, the MCR Arc (ptr_eq), internal-register mappings and attached devices (still answering on their ports) are kept; non-trivial = history executed >= 1 instruction and changed >= 1 configuration item; distinct by tape",
+         and the flags, breakpoints, the MCR Arc (ptr_eq), internal-register mappings (exactly the mapped set of the history: ports it unmapped stay unmapped) and attached devices (still answering on their ports) are kept; non-trivial = history executed >= 1 instruction and changed >= 1 configuration item; distinct by tape",
     );
     let cfg = TapeCfg::new(ctx, 600, 20_000, 700);
     out.shards = cfg.shards;
     out.absorb(tape_search(ctx, "main", &cfg, check, describe));
-    out.essential = ["executed-before-reset", "configuration-changed", "device-attached", "ireg-mapped"].iter().map(|s| s.to_string()).collect();
+    out.essential = ["executed-before-reset", "configuration-changed", "device-attached", "ireg-mapped", "default-ireg-mapping-removed"].iter().map(|s| s.to_string()).collect();
     out
 }
 
